@@ -1783,10 +1783,15 @@ func (t *tScreen) collectEventsFromInput(buf *bytes.Buffer, expire bool) []Event
 			partials++
 		}
 
-		if part, comp := t.parseFocus(buf, &res); comp {
-			continue
-		} else if part {
-			partials++
+		// A focus report can be the start of a key sequence (rxvt sends
+		// ESC [ O a for Ctrl-Up), so it is only taken for one when no
+		// key can be completed by more input, or the wait is over.
+		if partials == 0 || expire {
+			if part, comp := t.parseFocus(buf, &res); comp {
+				continue
+			} else if part {
+				partials++
+			}
 		}
 
 		// Only parse mouse records if this term claims to have
